@@ -33,9 +33,49 @@ example : arangeNum 10 0 (-3) = some 4 := by rfl
 example : arangeNum 5 5 2 = some 0 := by rfl
 example : arangeNum 0 10 0 = none := by rfl
 
-/-- **arange_den**: for *every* chunking `cs` and any sign of the step, the computed blocks have exactly the
-    declared lengths and concatenate to NumPy's `arange` (`start + i*step`, `i < sum cs`). -/
-theorem arange_den (start step : Int) (hs : step ≠ 0) (cs : List Nat) :
+/-- **arange_den** (after `fix: da.arange computes every element from its global index`): for *every* chunking `cs` and
+    for **any arithmetic** `A` of the computation dtype (exact integers, binary64, binary32 — no property of `+ - *` is
+    used) the blocks have exactly the declared lengths and concatenate to the array computed as one block, i.e. to
+    NumPy's own fill loop `first + i*(second - first)` with `[1] = second`.  In particular float `arange` is
+    chunk-invariant bit for bit and no block length depends on floating-point rounding. -/
+theorem arange_den {α} (A : Arith α) (first second : α) (cs : List Nat) :
+    (arangeValuesG A first second cs).flatten = arangeBlockG A first second 0 (sum cs)
+    ∧ (arangeValuesG A first second cs).map List.length = cs := by
+  refine ⟨?_, blocks_by_index_lens (arangeBlockG A first second) (by intro o n; simp [arangeBlockG]) cs 0⟩
+  unfold arangeValuesG arangeBlockG
+  rw [blocks_by_index (arangeElem A first second) cs 0]
+
+/-- … and over the integers that one block is NumPy's `start + i*step` (`first = start`, `second = start + step`) -/
+theorem arange_int_spec (start step : Int) (n : Nat) :
+    arangeBlockG intArith start (start + step) 0 n = arangeSpec start step n := by
+  unfold arangeBlockG arangeSpec
+  apply List.map_congr_left; intro i _
+  rw [arangeElem_int]; simp
+
+/-- the two together, with `num` from `arangeNum`: for every chunking of `num` the computed blocks of the integer
+    (= rational, after scaling) `arange` are NumPy's values `start + i*step`, and `i < num` are exactly the indices
+    whose value lies before `stop` -/
+theorem arange_int_den (start stop step : Int) (n : Nat) (cs : List Nat) (hn : arangeNum start stop step = some n)
+    (hsum : sum cs = n) :
+    (arangeValuesInt start step cs).flatten = arangeSpec start step n
+    ∧ (arangeValuesInt start step cs).map List.length = cs
+    ∧ ∀ i : Nat, i < n ↔ (if 0 < step then start + (i : Int) * step < stop else stop < start + (i : Int) * step) := by
+  have h := arange_den intArith start (start + step) cs
+  rw [hsum, arange_int_spec] at h
+  refine ⟨h.1, h.2, fun i => ?_⟩
+  have h0 : step ≠ 0 := by
+    intro h0; subst h0; simp [arangeNum] at hn
+  by_cases hp : 0 < step
+  · rw [if_pos hp]; exact arange_num_spec_pos hp hn i
+  · rw [if_neg hp]; exact arange_num_spec_neg (by omega) hn i
+
+example : arangeNum 10 0 (-3) = some 4 ∧ sum [3, 1] = 4 := by decide
+example : arangeValuesInt 10 (-3) [3, 1] = [[10, 7, 4], [1]] := by decide
+
+/-- **arange_fallback_den** (`chunk.arange` on block bounds — since the repair only the fallback of `arange_block`
+    for dtypes without index arithmetic, e.g. bool/datetime64): over exact arithmetic, for every chunking and any
+    sign of the step, the blocks have exactly the declared lengths and concatenate to `start + i*step`. -/
+theorem arange_fallback_den (start step : Int) (hs : step ≠ 0) (cs : List Nat) :
     (arangeValues start step cs).flatten = arangeSpec start step (sum cs)
     ∧ (arangeValues start step cs).map List.length = cs := by
   refine ⟨?_, arangeBlocks_lens start step hs cs 0⟩
